@@ -134,7 +134,7 @@ func (x *runner) layerLines(arch []byte, keys []string, nInodes int) []opline {
 			switch {
 			case len(keys) > 0 && rnd.Intn(4) > 0:
 				p = keys[rnd.Intn(len(keys))]
-				switch rnd.Intn(5) {
+				switch rnd.Intn(7) {
 				case 0:
 					p = "/" + p
 				case 1:
@@ -143,6 +143,8 @@ func (x *runner) layerLines(arch []byte, keys []string, nInodes int) []opline {
 					p = p + "/"
 				case 3:
 					p = "x/../" + p
+				case 4:
+					p = []string{"/x/../", "//", "/./", "/x/y/../../"}[rnd.Intn(4)] + p
 				}
 			default:
 				p = []string{"nonesuch", "", ".", "/", "a", "a/b", "etc/os-release"}[rnd.Intn(7)]
@@ -210,6 +212,53 @@ func (x *runner) layerLines(arch []byte, keys []string, nInodes int) []opline {
 		hx.Guard(func() string { l.Close(); return "" })
 	}
 	return out
+}
+
+// layerChecks states the contract of Layer directly: every OCI tar media type
+// gives the view New gives (or New's rejection), any other type is refused,
+// nothing works on a Layer that is not initialised, a failed Init leaves it so.
+func (x *runner) layerChecks(arch []byte, viewWalk string, newOK bool, walkCap int) {
+	r := x.r
+	ctx := context.Background()
+	r.Count("layer:direct-checks")
+	for _, mt := range tarTypes {
+		var l claircore.Layer
+		if _, err := l.FS(); err == nil {
+			r.Fail("", "Layer.FS of an uninitialised Layer succeeds")
+		}
+		if _, err := l.Reader(); err == nil {
+			r.Fail("", "Layer.Reader of an uninitialised Layer succeeds")
+		}
+		err := l.Init(ctx, &claircore.LayerDescription{Digest: goodDigest, MediaType: mt}, bytes.NewReader(arch))
+		switch {
+		case err != nil && newOK:
+			r.Fail("", fmt.Sprintf("Layer.Init with media type %q fails (%v) on an archive tarfs.New accepts", mt, err))
+		case err == nil && !newOK:
+			r.Fail("", fmt.Sprintf("Layer.Init with media type %q succeeds on an archive tarfs.New rejects", mt))
+		}
+		if err != nil {
+			if _, e := l.FS(); e == nil {
+				r.Fail("", fmt.Sprintf("Layer.FS succeeds after a failed Init (%q)", mt))
+			}
+			continue
+		}
+		if sys, e := l.FS(); e != nil {
+			r.Fail("", fmt.Sprintf("Layer.FS after Init(%q): %v", mt, e))
+		} else if w := walkFS(sys, walkCap); w != viewWalk {
+			r.Fail("", fmt.Sprintf("Layer.FS after Init(%q) walks %s, tarfs.New on the same bytes walks %s", mt, clip(w), clip(viewWalk)))
+		}
+		if e := l.Init(ctx, &claircore.LayerDescription{Digest: goodDigest, MediaType: mt}, bytes.NewReader(arch)); e == nil {
+			r.Fail("", "a second Layer.Init succeeds")
+		}
+		l.Close()
+	}
+	for _, mt := range otherTypes {
+		var l claircore.Layer
+		if err := l.Init(ctx, &claircore.LayerDescription{Digest: goodDigest, MediaType: mt}, bytes.NewReader(arch)); err == nil {
+			r.Fail("", fmt.Sprintf("Layer.Init accepts the media type %q", mt))
+			l.Close()
+		}
+	}
 }
 
 // readerChecks: every Reader of a Layer has its own cursor and yields the
